@@ -67,13 +67,13 @@ M = [
         self.out.write(bytes([Instruction.Instantiate, len(delta), *reversed(delta.keys())]))''', '''    def instantiate(self, proved: Proved, delta: dict[int, Pattern]) -> Proved:
         ret = super().instantiate(proved, delta)
         self.out.write(bytes([Instruction.Instantiate, len(delta), *delta.keys()]))'''),
- ('py_claims_not_reversed', 'C02 C03', PY + 'proof.py', '''        for claim in reversed(self._claims):''', '''        for claim in self._claims:'''),
+ ('py_claims_not_reversed', 'C02', PY + 'proof.py', '''        for claim in reversed(self._claims):''', '''        for claim in self._claims:'''),
  ('py_load_index_off_by_one', 'C02 C04', PY + 'serializing_interpreter.py', '''        self.out.write(bytes([Instruction.Load, self.memory.index(term)]))''', '''        self.out.write(bytes([Instruction.Load, max(0, self.memory.index(term) - (1 if len(self.memory) > 3 else 0))]))'''),
  ('py_symbol_ids_mod', 'C03', PY + 'serializing_interpreter.py', '''        self.out.write(bytes([Instruction.Symbol, id]))''', '''        self.out.write(bytes([Instruction.Symbol, id % 256]))'''),
- ('py_class_level_symbol_table', 'C18 C03', PY + 'serializing_interpreter.py', '''        super().__init__(phase, out, claims, claim_out, proof_out)
+ ('py_class_level_symbol_table', 'C18', PY + 'serializing_interpreter.py', '''        super().__init__(phase, out, claims, claim_out, proof_out)
         self._symbol_identifiers: dict[str, int] = {}''', '''        super().__init__(phase, out, claims, claim_out, proof_out)
         self._symbol_identifiers = SerializingInterpreter._shared_symbols'''),
- ('py_skip_submodule_axioms', 'C03 C02', PY + 'proof.py', '''        for submodule in self._submodules:
+ ('py_skip_submodule_axioms', 'C03', PY + 'proof.py', '''        for submodule in self._submodules:
             submodule.execute_gamma_phase(interpreter, False)''', '''        for submodule in self._submodules[:1]:
             submodule.execute_gamma_phase(interpreter, False)'''),
  ('py_into_proof_phase_keeps_stack', 'C04', PY + 'stateful_interpreter.py', '''    def into_proof_phase(self) -> None:
@@ -83,22 +83,16 @@ M = [
         self.stack.pop()
         super().pop(term)''', '''        assert self.stack[-1] == term, f'expected: {self.stack[-1]}\\ngot: {term}'
         super().pop(term)'''),
- ('py_memoizer_saves_wrong_pattern', 'C02 C04', PY + 'optimizing_interpreters.py', '''            ret = super().pattern(p)
-            self.save(repr(p), p)
-            return ret''', '''            ret = super().pattern(p)
-            self.save(repr(p), ret)
+ ('py_memoizer_lookup_by_str', 'C02 C04', PY + 'optimizing_interpreters.py', '''        if stateful is not None and p in stateful.memory:
+            self.load(str(p), p)
+            return p''', '''        if stateful is not None and any(str(m) == str(p) for m in stateful.memory if isinstance(m, type(p))):
+            self.load(str(p), next(m for m in stateful.memory if isinstance(m, type(p)) and str(m) == str(p)))
             return p'''),
- ('py_esubst_operands_swapped_in_pattern', 'C02 C04', PY + 'interpreter.py', '''            case ESubst(subpattern, var, plug):
-                assert isinstance(var, EVar)
-                plug = self.pattern(plug)
-                subpattern = self.pattern(subpattern)''', '''            case ESubst(subpattern, var, plug):
-                assert isinstance(var, EVar)
-                subpattern = self.pattern(subpattern)
-                plug = self.pattern(plug)'''),
+ ('mm_memory_offset_off_by_one', 'C16', PY + 'metamath/translate.py', '''                interpreter().load(str(mm_memory[lemma - memory_offset - 1]), mm_memory[lemma - memory_offset - 1])''', '''                interpreter().load(str(mm_memory[lemma - memory_offset - 2]), mm_memory[lemma - memory_offset - 2])'''),
+ ('py_deser_metavar_constraints_as_ints', 'C14', PY + 'deserialize.py', '''                tuple(EVar(v) for v in e_fresh),''', '''                tuple(e_fresh),'''),
  # ---------------- rules (C07)
- ('py_mp_no_antecedent_check', 'C07 C02', PY + 'basic_interpreter.py', '''        assert l == right.conclusion, str(l) + ' != ' + str(right.conclusion)''', '''        pass'''),
+ ('py_mp_no_antecedent_check', 'C07', PY + 'basic_interpreter.py', '''        assert l == right.conclusion, str(l) + ' != ' + str(right.conclusion)''', '''        pass'''),
  ('py_generalization_no_fresh_check', 'C07', PY + 'basic_interpreter.py', '''        assert r.evar_is_free(var.name), f'{str(var)} in FV({str(r)})\'''', '''        pass'''),
- ('py_exists_binder_not_fresh', 'C07', PY + 'pattern.py', '''        return name == self.var or self.subpattern.evar_is_free(name)''', '''        return self.subpattern.evar_is_free(name)'''),
  ('py_esubst_fresh_in_plug_only', 'C07', PY + 'pattern.py', '''        # We assume that at least one instance will be replaced
         return self.pattern.evar_is_free(name) and self.plug.evar_is_free(name)
 
@@ -120,7 +114,6 @@ M = [
         return self.pattern.instantiate(delta).apply_esubst'''),
  # ---------------- deserialiser (C14)
  ('py_deser_instantiate_keys_unreversed', 'C14', PY + 'deserialize.py', '''            delta = dict(reversed(list(zip(keys, values, strict=True))))''', '''            delta = dict(list(zip(keys, values, strict=True)))'''),
- ('py_deser_load_bound_off_by_one', 'C14', PY + 'deserialize.py', '''            if id >= len(interpreter.memory):''', '''            if id > len(interpreter.memory):'''),
  ('py_deser_truncated_metavar_list_ok', 'C14', PY + 'deserialize.py', '''        for i in range(length):
             elem = next_byte(f'Expected {i}-th element of list')
             assert elem is not None
@@ -160,7 +153,6 @@ M = [
                 interpreter().pop(stack()[-1])
                 interpreter().load(conclusion_name, conclusion)'''),
  ('mm_antecedents_forward_order', 'C16', PY + 'metamath/translate.py', '''                for eh, pat in reversed(saved_antecedents):''', '''                for eh, pat in saved_antecedents:'''),
- ('mm_memory_offset_ignores_mandatory', 'C16', PY + 'metamath/translate.py', '''                interpreter().load(str(mm_memory[lemma - memory_offset - 1]), mm_memory[lemma - memory_offset - 1])''', '''                interpreter().load(str(mm_memory[lemma - memory_offset - 1 if lemma - memory_offset - 1 < len(mm_memory) else 0]), mm_memory[lemma - memory_offset - 1 if lemma - memory_offset - 1 < len(mm_memory) else 0])'''),
 ]
 
 EXTRA_PREAMBLE = {
